@@ -985,7 +985,7 @@ def check_markers(run: common.Run, rng: random.Random, pool: Pool, ncase: int, c
 # ------------------------------------------------------------------------------ entry
 SIZES = {
     # (filter programs, subsets per program, all endians, marker cases)
-    "quick": (26, 4, False, 110),
+    "quick": (18, 4, False, 80),
     "thorough": (180, 6, True, 900),
 }
 
